@@ -173,6 +173,13 @@ def _neither(e):
     return None
 
 
+def _chresult(e):
+    if e.get('op') == 'finish':
+        e['result'] = e['result'] + '!'
+        return e
+    return None
+
+
 PROPS = {
     'C11': dict(
         tv=dict(module='ScannerTrace', cfg='ScannerTrace.cfg'),
@@ -296,6 +303,14 @@ PROPS = {
         mc=[],
         corrupt=[('turn a normal return into neither', _neither)],
         exhaustive_part=True,
+    ),
+    'C19': dict(
+        tv=[dict(part='sched', module='ConcurrentEvalTrace', cfg='ConcurrentEvalTrace.cfg'),
+            dict(part='race', module='ConcurrentEvalTrace', cfg='ConcurrentEvalTrace.cfg')],
+        mc=[dict(module='ConcurrentEvalMC', cfg='ConcurrentEvalMC.cfg', tag='2'), dict(module='ConcurrentEvalMC', cfg='ConcurrentEvalMC3.cfg', tag='3')],
+        corrupt=[('change a concurrent result', _chresult)],
+        exhaustive_part=True,
+        race=True,
     ),
 }
 
@@ -522,5 +537,20 @@ DOC = {
              'precondition panics of configuration setters and of Variant.As* on the wrong type are API misuse, not untrusted input, and are '
              'not driven. Coverage-guided fuzzing is not used; inputs are exhaustive small alphabets plus seeded random/mutated strings.',
         technique='TLA+ outcome protocol (Outcome) + TLC trace validation of exhaustive small and random inputs executed under recover and a watchdog',
+    ),
+    'C19': dict(
+        level='ConcurrentEval.tla models processes evaluating one compiled program with private stacks; TLC checks over all schedules of 2 and 3 '
+              'processes that every result equals the sequential one, that the program is never assigned and that a step touches only its '
+              'own process (a variant with a shared scratch stack violates it - the change the check must catch). Binding: goroutines '
+              'evaluating one parsed calculator (own variable and function collections, gated at every variable lookup and function call '
+              'through the public interfaces) or one parsed template (gated at every token through the guarded hook VerifRenderStep) are '
+              'released in every interleaving for short programs and in random ones otherwise; ConcurrentEvalTrace.tla validates program '
+              'order, results = sequential results, and equality of the before/after digest of program, constants, variable values and '
+              'function table; sequential repetition histories are checked against a memo table; a third part runs free under the Go race '
+              'detector (shared calculator, shared template, separate instances) and any report or mismatch is a rejected event.',
+        note='Trusted: TLC, Json module, recorder, the hook VerifRenderStep, the Go race detector as the instrument for data races (the gates '
+             'create happens-before edges, hence the separate free-running part). Concurrent mutation of one instance (Set... during '
+             'Evaluate) is not claimed by the statement and not driven.',
+        technique='TLA+ concurrency model + TLC exploration of all schedules (ConcurrentEvalMC) + replay of interleavings on gated goroutines validated by TLC; Go race detector for the free-running part',
     ),
 }
